@@ -304,7 +304,8 @@ def run_case(chk, I, case, mline, f07_known):
     chk.case((S, C, h, w, thr, p, dtype, a.tobytes()) if nvalid and h * w > 1 else None,
              {"shape": [S, C, h, w], "thr": thr, "p": p, "dtype": dtype, "kind": case.get("kind"), "valid": nvalid}
              if nvalid and case.get("kind") not in ("gauss", "big_half") else None,
-             tags=[f"shape:{case.get('shape')}", f"p:{p}", f"dtype:{dtype}"] + ([f"kind:{case['kind']}"] if case.get("kind") in ("f64special", "big_half") else []) + [ f"valid:{nvalid}/{S * C}" if S * C <= 2 else
+             tags=[f"shape:{case.get('shape')}", f"p:{p}", f"dtype:{dtype}", f"thr:{thr}", "thr<0" if thr < 0 else "thr>=0",
+                   "S>1&C>1" if S > 1 and C > 1 else "S=1|C=1"] + ([f"kind:{case['kind']}"] if case.get("kind") in ("f64special", "big_half") else []) + [ f"valid:{nvalid}/{S * C}" if S * C <= 2 else
                    ("valid:all" if nvalid == S * C else "valid:none" if nvalid == 0 else "valid:mixed")])
     if rough and rough[0] == "raise":
         chk.disagree("find_global_peaks_rough raises where the model does not", small, str(rough), "ok")
@@ -343,6 +344,27 @@ def run_case(chk, I, case, mline, f07_known):
             if str(alone[0]) != str(rough[k]):
                 chk.fail("C07: result of one channel depends on the other maps in the batch",
                          {**small, "channel": [s, c]}, {"in_batch": rough[k], "alone": alone[0]})
+    n_ev = chk.evaluations
+    if n_ev % 6 == 1 and h * w > 1:  # a non-contiguous view of the same tensor
+        chk.tag("oracle:non-contiguous")
+        got = I.rough(cms.transpose(2, 3).contiguous().transpose(2, 3), thr)
+        if str(got) != str(rough):
+            chk.disagree("find_global_peaks_rough on a non-contiguous view == on the contiguous tensor", small, str(got)[:400], str(rough)[:400])
+            for k, g in enumerate(got if got and got[0] != "raise" else []):
+                why, sigs = oracle_rough(np, a[k // C, k % C], thr, g, dtype)
+                if why:
+                    chk.fail(f"C07 fails on find_global_peaks_rough (non-contiguous input): {why}", {**small, "channel": [k // C, k % C]}, list(g), sigs)
+    if n_ev % 7 == 2:  # any other refinement string returns the rough peaks
+        chk.tag("oracle:refinement=other-string")
+        got = I.full(cms, thr, "local", 5)
+        if str(got) != str(rough):
+            chk.disagree("find_global_peaks(refinement='local') == find_global_peaks_rough", small, str(got)[:400], str(rough)[:400])
+    if dtype == "f32" and thr in (0.1, 0.2):  # default arguments: rough 0.1, find_global_peaks 0.2 / patch 5
+        chk.tag("oracle:default-arguments")
+        r = call(I.pf.find_global_peaks_rough, cms.clone()) if thr == 0.1 else call(I.pf.find_global_peaks, cms.clone())
+        got = ("raise",) + r[1:] if r[0] == "raise" else I.canon(r[1], S, C)
+        if str(got) != str(rough):
+            chk.disagree("find_global_peaks[_rough] with default threshold == explicit threshold", small, str(got)[:400], str(rough)[:400])
     if p == 0:
         return
     refined = I.full(cms, thr, "integral", p)
@@ -355,6 +377,38 @@ def run_case(chk, I, case, mline, f07_known):
         chk.disagree("find_global_peaks(integral) raises where the model does not", small, str(refined), "ok")
         chk.fail("C07: find_global_peaks(integral) raised", small, str(refined))
         return
+    def close(fa, fb, g_, s_, c_):
+        """two implementation outputs for one channel: NaN pattern and value exactly, point within the conditioned tolerance"""
+        if (fa[0] is None) != (fb[0] is None) or (fa[1] is None) != (fb[1] is None) or fa[2] != fb[2]:
+            return False
+        if fa[0] is None or (fa[0] == fb[0] and fa[1] == fb[1]):
+            return True
+        if g_[0] is None:
+            return False
+        P = patch_of(np, a, s_, c_, int(g_[0]), int(g_[1]), p)
+        z, az = float(P.sum()), eff_abs_sum(np, P, a[s_, c_], p)
+        if abs(z) < 1e-3 * az:
+            return True
+        tol = REFINE_TOL[dtype] * max(1.0, (p + 1) / 2 * az / abs(z))
+        return abs(fa[0] - fb[0]) <= tol and abs(fa[1] - fb[1]) <= tol
+
+    if p >= 2 and S * C > 1 and n_ev % 4 == 0:
+        chk.tag("oracle:alone==batch(refined)")
+        for k in range(S * C):
+            s, c = divmod(k, C)
+            alone = I.full(cms[s:s + 1, c:c + 1], thr, "integral", p)
+            if (alone and alone[0] == "raise") or not close(alone[0], refined[k], rough[k], s, c):
+                chk.fail("C07: refined result of one channel depends on the other maps in the batch",
+                         {**small, "channel": [s, c]}, {"in_batch": refined[k], "alone": alone[0] if alone else None})
+    if p >= 2 and n_ev % 6 == 1 and h * w > 1:
+        got = I.full(cms.transpose(2, 3).contiguous().transpose(2, 3), thr, "integral", p)
+        if (got and got[0] == "raise") or not all(close(x, y, g_, k // C, k % C) for k, (x, y, g_) in enumerate(zip(got, refined, rough))):
+            chk.disagree("find_global_peaks(integral) on a non-contiguous view == on the contiguous tensor", small, str(got)[:400], str(refined)[:400])
+    if p == 5 and thr == 0.2 and dtype == "f32":
+        r = call(I.pf.find_global_peaks, cms.clone(), refinement="integral")
+        got = ("raise",) + r[1:] if r[0] == "raise" else I.canon(r[1], S, C)
+        if (got and got[0] == "raise") or not all(close(x, y, g_, k // C, k % C) for k, (x, y, g_) in enumerate(zip(got, refined, rough))):
+            chk.disagree("find_global_peaks(cms, refinement='integral') == (threshold=0.2, integral_patch_size=5)", small, str(got)[:400], str(refined)[:400])
     for k, (g, f, m) in enumerate(zip(rough, refined, model)):
         s, c = divmod(k, C)
         if f[2] != g[2]:
